@@ -152,7 +152,9 @@ def caller_case(draw):
     more = [{"a": draw(st.integers(0, 6)), "b": draw(st.integers(0, 6))} for _ in range(draw(st.integers(0, 3)))]
     return {"ast": ast, "text": text, "ctx": ctx, "consts": consts, "compiled": draw(st.booleans()), "via": draw(st.sampled_from(["array", "enum", "define"])),
             "more": more, "shadow": [draw(st.integers(0, 9)), draw(st.integers(0, 9))], "defines_after": draw(st.booleans()),
-            "const_spelling": {k_: draw(st.sampled_from(["dec", "dec", "hex", "oct", "bin", "oct-u", "paren-oct"])) for k_ in consts}}
+            "const_spelling": {k_: draw(st.sampled_from(["dec", "dec", "hex", "oct", "bin", "oct-u", "paren-oct"])) for k_ in consts},
+            # the fields the count refers to are plain integers, or enum / flag values (integers with a class of their own)
+            "field_kinds": [draw(st.sampled_from(["uint8", "uint8", "EA", "FA"])), draw(st.sampled_from(["uint8", "uint8", "EA", "FA"]))]}
 
 
 # ---------------------------------------------------------------- enumeration
@@ -347,7 +349,10 @@ def _run_callers(case, ctx, m):
             ctx.count("callers:too-long-skipped")
             return
         uses_fields = bool(X.features(ast)["ids"] & {"a", "b"})
-        sdef = f"struct T {{ uint8 a; uint8 b; uint8 arr[{text}]; uint8 tail; }};"
+        fk = case.get("field_kinds") or ["uint8", "uint8"]
+        sdef = "enum EA : uint8 { EA_X = 1, EA_Y = 2 };\nflag FA : uint8 { FA_R = 1, FA_W = 2, FA_X = 4 };\n" + f"struct T {{ {fk[0]} a; {fk[1]} b; uint8 arr[{text}]; uint8 tail; }};"
+        if uses_fields:
+            ctx.count("callers:array:count-over-fields-typed:" + "+".join(sorted(set(fk))))
         # constants may also be defined AFTER the structure that uses them, when the count depends on a field anyway
         after = bool(case.get("defines_after")) and uses_fields
         r = lib(cs.load, (sdef + "\n" + defs) if after else (defs + sdef), compiled=case["compiled"])
